@@ -93,8 +93,8 @@ def invoke(lib, call, exact=False, poison=None):
 
 
 # ------------------------------------------------------------------------------------------------ case tables
-def small_images():
-    for shp in ((2, 2), (2, 3), (3, 2), (3, 3)):
+def small_images(tier="quick"):
+    for shp in ((2, 2), (2, 3), (3, 2), (3, 3)) + (((3, 4), (4, 3), (2, 5), (5, 2), (2, 6), (6, 2)) if tier == "thorough" else ()):
         n = shp[0] * shp[1]
         for x in range(1 << n):
             yield np.array([(x >> k) & 1 for k in range(n)], np.float32).reshape(shp)
@@ -169,13 +169,13 @@ def specs(tier):
     NP3, NP2 = NP_["NPROPERTY"], NP_["NPROPERTY2D"]
 
     def g_connectedpixels():
-        for im in itertools.chain(small_images(), big_images(tier), growth_images()):
+        for im in itertools.chain(small_images(tier), big_images(tier), growth_images()):
             for c8 in (1, 0):
                 yield Call("connectedpixels", [A(im), A(np.zeros(im.shape, np.int32), "out"), F(0.5), I(0), I(c8), I(im.shape[0]), I(im.shape[1])])
     yield "connectedpixels", g_connectedpixels
 
     def g_blobproperties():
-        for im in small_images():
+        for im in small_images(tier):
             lab = np.cumsum(im.ravel() > 0).reshape(im.shape).astype(np.int32) * (im > 0)       # every pixel its own blob
             npk = int(lab.max())
             for n_given in {npk, max(npk, 1), npk + 2}:
@@ -207,12 +207,12 @@ def specs(tier):
     yield "blob_moments", g_blob_moments
 
     def g_clean_mask():
-        for im in small_images():
+        for im in small_images(tier):
             yield Call("clean_mask", [A(im.astype(np.int8)), A(np.zeros(im.shape, np.int8), "out"), I(im.shape[0]), I(im.shape[1])])
     yield "clean_mask", g_clean_mask
 
     def g_make_clean_mask():
-        for im in small_images():
+        for im in small_images(tier):
             yield Call("make_clean_mask", [A(im), F(0.5), A(np.zeros(im.shape, np.int8), "out"), A(np.zeros(im.shape, np.int8), "out"), I(im.shape[0]),
                                            I(im.shape[1])])
     yield "make_clean_mask", g_make_clean_mask
@@ -230,7 +230,7 @@ def specs(tier):
     yield "localmaxlabel", g_localmaxlabel
 
     def g_mask_to_coo():
-        for im in small_images():
+        for im in small_images(tier):
             nnz = int((im > 0).sum())
             if nnz == 0:
                 continue            # an empty mask is not a well-formed call (the library represents empty frames as None)
@@ -290,7 +290,7 @@ def specs(tier):
     yield "overlap_kernels", g_overlaps
 
     def g_tosparse():
-        for im in small_images():
+        for im in small_images(tier):
             for cut in (0, 1):
                 msk = np.ones(im.shape, np.uint8)
                 msk.flat[0] = 0
